@@ -65,7 +65,7 @@ MANIFEST = {
     "technique": "Lean 4 proof over an SSA op-list semantics + per-run extraction of the real lowering (T-obj) + CPython execution of "
     "Guppy std source (T-exec)",
     "design_ref": "DESIGN.md §5 C19",
-    "ready": False,
+    "ready": True,
 }
 
 M63 = 1 << 63
